@@ -76,6 +76,7 @@ class Roles:
         self.reached: Set[str] = set()
         self.unresolved: List[Tuple[str, str]] = []
         self.mask_names: Dict[str, Set[str]] = {}
+        self.rebound: Dict[str, Set[str]] = {}        # shallow-copy path 'X~' -> attributes re-bound right after the copy
         self.defp: Dict[Tuple[str, str, int], Set[str]] = {}
         for k, m in roots.items():
             self.env[k] = {n: set(p) for n, p in m.items()}
@@ -122,6 +123,11 @@ class Roles:
             if sn and isinstance(e.value, ast.Name) and e.value.id == sn and e.attr in self.self_attrs:
                 return self.with_alias(self.self_attrs[e.attr])
             base = self.paths(fi, e.value)
+            if isinstance(e.ctx, ast.Load):
+                # an attribute read from a shallow copy is the original's attribute object (or what the copy's attribute was re-bound to) -
+                # unless the copying function re-binds that attribute right after the copy, before the copy is used for anything else
+                if any(b.endswith("~") for b in base) and not self._rebound_before(fi, e):
+                    base = base | {b[:-1] for b in base if b.endswith("~") and e.attr not in self.rebound.get(b, ())}
             if e.attr in VIEW_ATTRS:
                 return self.with_alias({b + "." + e.attr for b in base}) | base
             return self.with_alias({b + "." + e.attr for b in base})
@@ -152,6 +158,22 @@ class Roles:
             return self._call_paths(fi, e, None)
         return set()
 
+    def _rebound_before(self, fi: FuncInfo, e: ast.Attribute) -> bool:
+        """`X.attr = <value>` on every path to this read of `X.attr`, in the same function (the copy's attribute is its own by then)"""
+        flow = flow_of(fi)
+        here = flow.node_of(e)
+        if here is None:
+            return False
+        dom = flow.cfg.dominators().get(here, set())
+        text = ast.unparse(e)
+        for n in walk_no_nested(fi.node):
+            if isinstance(n, ast.Assign) and len(n.targets) == 1 and isinstance(n.targets[0], ast.Attribute) \
+                    and ast.unparse(n.targets[0]) == text:
+                d = flow.stmt_node.get(id(n))
+                if d is not None and d != here and d in dom:
+                    return True
+        return False
+
     def _is_mask_name(self, fi: FuncInfo, sl: ast.AST) -> bool:
         return isinstance(sl, ast.Name) and sl.id in self.mask_names.get(fi.key, set())
 
@@ -171,6 +193,10 @@ class Roles:
             # a freshly constructed record object: named by its class (optionally mapped onto a model root)
             return {self.new_as.get(tgt.name, f"NEW.{tgt.name}")}
         f = e.func
+        if self.prog.external_name(fi, f) == "copy.copy" and e.args:
+            # a shallow copy: a new record whose attributes are the original's objects ('~' marks the copy itself: re-binding an
+            # attribute of the copy leaves the original alone, reading one yields the shared object)
+            return {p + "~" for p in self.paths(fi, e.args[0]) if not p.endswith("~")} | {p for p in self.paths(fi, e.args[0]) if p.endswith("~")}
         if isinstance(f, ast.Name):
             if f.id in FRESH_CALLS:
                 return set()
@@ -250,6 +276,25 @@ class Roles:
                                                     and isinstance(v.left, ast.Compare)):
                     masks.add(n.targets[0].id)
         flow = flow_of(fi)
+        # `v = copy(x)` directly followed by `v.attr = <value>` statements: those attributes of the shallow copy are private from the start
+        for n in [fi.node] + list(walk_no_nested(fi.node)):
+            for blk in (getattr(n, "body", None), getattr(n, "orelse", None), getattr(n, "finalbody", None)):
+                if not isinstance(blk, list):
+                    continue
+                for i, st in enumerate(blk):
+                    if isinstance(st, ast.Assign) and len(st.targets) == 1 and isinstance(st.targets[0], ast.Name) \
+                            and isinstance(st.value, ast.Call) and self.prog.external_name(fi, st.value.func) == "copy.copy":
+                        attrs = set()
+                        for nx in blk[i + 1:]:
+                            t = nx.targets[0] if isinstance(nx, ast.Assign) and len(nx.targets) == 1 else None
+                            if isinstance(t, ast.Attribute) and isinstance(t.value, ast.Name) and t.value.id == st.targets[0].id:
+                                attrs.add(t.attr)
+                            else:
+                                break
+                        for b in self._call_paths(fi, st.value, None):
+                            if b.endswith("~") and attrs - self.rebound.get(b, set()):
+                                self.rebound.setdefault(b, set()).update(attrs)
+                                ch = True
         for n in walk_no_nested(fi.node):
             site = flow.stmt_node.get(id(n), ENTRY)
             if site == ENTRY and isinstance(n, ast.NamedExpr):
